@@ -276,13 +276,21 @@ def Call.apply (c : Call) (strm : Stream) : Stream :=
 
 def step (strm : Stream) (c : Call) : Result := lzmaCode c.code (c.apply strm) c.action
 
-/-- Runs a history; returns the final stream and the per-call results in order. -/
-def run : Stream → List Call → Stream × List Result
-  | s, [] => (s, [])
-  | s, c :: cs =>
-    let r := step s c
-    let (s', rs) := run r.strm cs
-    (s', r :: rs)
+/-- One entry of an executed history: the stream before the application touched it, the call, the result. -/
+structure Entry where
+  pre : Stream
+  call : Call
+  result : Result
+
+/-- Executes a history and records every call. -/
+def trace : Stream → List Call → List Entry
+  | _, [] => []
+  | s, c :: cs => ⟨s, c, step s c⟩ :: trace (step s c).strm cs
+
+/-- The stream after a history. -/
+def finalState : Stream → List Call → Stream
+  | s, [] => s
+  | s, c :: cs => finalState (step s c).strm cs
 
 /-! ### Accessors (trivial pass-throughs; the inner coder's callbacks are parameters) -/
 
